@@ -146,10 +146,16 @@ func (c *Chain) VLine(parent *chain.BlockSummary, v *PView, blk *block.Block, no
 		txs.WriteString(c.TxTokens(t, ch, h.Number(), h.BaseFee(), lb))
 	}
 	root := blk.Transactions().RootHash()
-	return fmt.Sprintf("V %s | %s | %s |%s |%s | %s %x | %s |%s |%s | %s %s %s %s",
+	rrfix := "-"
+	if fix, ok := thor.LoadCorrectReceiptsRoots()[h.ID().String()]; ok {
+		if b32, err := thor.ParseBytes32(fix); err == nil {
+			rrfix = hx.HexN(b32[:])
+		}
+	}
+	return fmt.Sprintf("V %s | %s | %s |%s |%s | %s %x | %s |%s |%s | %s %s %s %s %s",
 		c.cfgTokens(), HeaderTokens(parent.Header), pos, cands, hashTokens(v, parent.Header, h.Timestamp()),
 		HeaderTokens(h), now, hx.HexN(root[:]), txs.String(), execTokens(ex.Receipts, len(blk.Transactions())),
-		hx.HexN(ex.ReceiptsRoot[:]), hx.B(ex.Sanity), hx.B(ex.RewardsOK), hx.HexN(ex.StateRoot[:]))
+		hx.HexN(ex.ReceiptsRoot[:]), hx.B(ex.Sanity), hx.B(ex.RewardsOK), hx.HexN(ex.StateRoot[:]), rrfix)
 }
 
 // PLine: "Packer.Schedule(parent, now); Adopt(cands...); Pack" for the model; the real block supplies the roots and
